@@ -1,7 +1,7 @@
 (* Dispatch table: entry name -> model entry point.  The harness names the entry on every
    case line; the same table is used by the extracted driver and by the kernel cross-check. *)
 Require Import Gengo.Base.Str Gengo.Base.Sexp.
-Require Gengo.Model.Tags Gengo.Model.JsonTag Gengo.Model.Tracker Gengo.Model.Namer Gengo.Model.Order Gengo.Model.ImportBoss Gengo.Model.Exec Gengo.Model.Snippet Gengo.Model.Files Gengo.Model.Universe Gengo.Model.Comments Gengo.Model.RawNamer Gengo.Model.BuildTags Gengo.Model.Sets.
+Require Gengo.Model.Tags Gengo.Model.JsonTag Gengo.Model.Tracker Gengo.Model.Namer Gengo.Model.Order Gengo.Model.ImportBoss Gengo.Model.Exec Gengo.Model.Snippet Gengo.Model.Files Gengo.Model.Universe Gengo.Model.Comments Gengo.Model.RawNamer Gengo.Model.BuildTags Gengo.Model.Sets Gengo.Model.DeepCopy.
 
 Definition entries : list (string * (sexp -> option sexp)) := [
   ("C08.old", Tags.run_old);
@@ -35,6 +35,7 @@ Definition entries : list (string * (sexp -> option sexp)) := [
   ("C15.args", Snippet.run_args);
   ("C09.assemble", Files.run_assemble_parts);
   ("C09.boilerplate", Files.run_boilerplate);
+  ("C09.write", Files.run_write);
   ("C10.step", Files.run_genverify);
   ("C01.universe", Universe.run_universe);
   ("C06.universe", Universe.run_universe);
@@ -45,7 +46,8 @@ Definition entries : list (string * (sexp -> option sexp)) := [
   ("C05.pkgcomments", Comments.run_pkgcomments);
   ("C02.raw", RawNamer.run_raw);
   ("C12.visible", BuildTags.run_visible);
-  ("C17.ops", Sets.run_sets)
+  ("C17.ops", Sets.run_sets);
+  ("C16.copy", DeepCopy.run_copy)
 ]%string.
 
 Fixpoint find_entry (name : str) (l : list (string * (sexp -> option sexp))) : option (sexp -> option sexp) :=
